@@ -30,11 +30,25 @@ Oracle (written from the statement, never calls int.from_bytes/int.to_bytes/stru
     encode         = the inverse; outside [lo, hi] or a non-int  =>  pack() raises PacketError.
 The oracle's decode and encode are checked against each other on every pattern (a disagreement is
 a harness error -> inconclusive, never a verdict).
+
+HISTORY part.  Rejection must not depend on what went through the field before.  On every class, sequences of
+operations through the SAME class / field object are executed step by step (see history_pre / history_late):
+    equal     pack integer v (== oracle bytes), then pack a non-integer that compares equal to v and has the same
+              hash (float(v), -0.0 after 0, Fraction(v), Decimal(v), complex(v, 0))           -> PacketError
+    same      the same on ONE packet object (x = v, pack, x = float(v), pack -> PacketError, x = v, pack == bytes)
+    reverse   the non-integer first (-> PacketError), then the integer (== oracle bytes), then the non-integer again
+    overwrite unpack the bytes of v, repack (== bytes), overwrite x with the equal non-integer      -> PacketError
+    modular   pack v, then v + 2^(8n) / v - 2^(8n) (same bytes modulo the width), -1 <-> 2^(8n)-1   -> PacketError
+    stale     a non-integer equal to a boundary value the main part packed long before on that class -> PacketError
+For the sequence layouts the value is an element of the list (either position).  A fresh class (nothing packed yet)
+is used for the first five, so a recorded sequence replays exactly.
 """
 import ast
 import os
 import re
 import sys
+from decimal import Decimal
+from fractions import Fraction
 
 from .. import common, render
 from ..common import rng_for
@@ -51,6 +65,16 @@ REQUIRED = (
     "class_default_configs", "oracle_selfchecks",
     "layout_opt_checked", "layout_unt_checked", "layout_ref_checked", "opt_absent_checked",
     "opt_class_default_little_checked", "unt_class_default_little_checked",
+    # history part (rejection independent of what was packed / parsed before through the same field)
+    "hist_sequences", "hist_equal_nonint_rejections", "hist_float_rejections", "hist_fraction_rejections",
+    "hist_decimal_rejections", "hist_complex_rejections", "hist_negzero_rejections",
+    "hist_same_packet_rejections", "hist_nonint_first_rejections", "hist_int_after_nonint_packed",
+    "hist_int_repacked_after_rejection", "hist_seq_element_rejections", "hist_unpack_overwrite_rejections",
+    "hist_modular_rejections", "hist_stale_rejections",
+    "hist_loop_path_rejections", "hist_struct_path_rejections",
+    "hist_generic_code_rejections", "hist_generated_code_rejections",
+    "hist_signed_rejections", "hist_unsigned_rejections", "hist_big_rejections", "hist_little_rejections",
+    "hist_full_classes", "hist_lean_classes",
 )
 RULE = {
     "quick": "widths 1..9 and 16 x signed/unsigned x 13 byte-order configurations (field endianness None under the 5 class "
@@ -193,7 +217,7 @@ def _cap(s):
 
 class ClsRec(object):
     __slots__ = ("name", "src", "cls", "inst", "n", "signed", "spelling", "cd", "layout", "opt",
-                 "order", "corder", "bad", "modname")
+                 "order", "corder", "bad", "modname", "path", "full", "salt")
 
     def config(self):
         return {"width": self.n, "signed": self.signed, "endianness": self.spelling, "class_default": self.cd,
@@ -261,6 +285,8 @@ def make_records(n, signed, spelling, cd, tier):
             r.corder = resolve_order(None, cd)
             r.cls = r.inst = None
             r.bad = False
+            r.path = "struct" if n in (1, 2, 4, 8) else "loop"
+            r.full, r.salt = False, 0
             recs.append(r)
     return recs
 
@@ -689,14 +715,7 @@ def per_class_cases(ctx, rec, rng_bytes, full, salt):
             run.count("bool_packed_as_0_or_1" if out == want else "bool_packed_otherwise")
         except Exception:
             run.count("bool_pack_raised")
-    # integral float: observed only
-    if full:
-        try:
-            assign = {"x": [2.0, 2.0]} if rec.layout in SEQ_LAYOUTS else frame_values(rec, 2.0, 1)
-            rec.cls(**assign).pack()
-            run.count("integral_float_accepted")
-        except Exception:
-            run.count("integral_float_rejected")
+    # (integral floats and other non-integers equal to an integer are judged by the history part)
 
     # truncations: every cut of a complete input (full: also every starting offset that leaves too few bytes)
     other = bytes((i + 1) & 0xff for i in range(n))
@@ -721,6 +740,483 @@ def per_class_cases(ctx, rec, rng_bytes, full, salt):
     run.case(key="%s|truncations" % rec.name, n=0)
 
 
+# ---------------------------------------------------------------------------------------------
+# history part: rejection must not depend on what went through the same field before
+# ---------------------------------------------------------------------------------------------
+HIST_KINDS = ("float", "Fraction", "Decimal", "complex", "negzero")      # judged non-integers (standard numeric types)
+HIST_SCENARIOS = ("equal", "same", "reverse", "overwrite", "stale", "modular")
+KIND_COUNTER = {"float": "hist_float_rejections", "Fraction": "hist_fraction_rejections",
+                "Decimal": "hist_decimal_rejections", "complex": "hist_complex_rejections",
+                "negzero": "hist_negzero_rejections"}
+
+
+class IndexOnly(object):
+    """not an int, but has __index__; equal to and hashing like an int  (observed, never judged)"""
+    def __init__(self, v):
+        self.v = v
+
+    def __index__(self):
+        return self.v
+
+    def __eq__(self, other):
+        return self.v == other
+
+    def __ne__(self, other):
+        return self.v != other
+
+    def __hash__(self):
+        return hash(self.v)
+
+    def __repr__(self):
+        return "IndexOnly(%d)" % self.v
+
+
+class EqualOnly(object):
+    """no numeric protocol at all; equal to and hashing like an int  (observed, never judged)"""
+    def __init__(self, v):
+        self.v = v
+
+    def __eq__(self, other):
+        return self.v == other
+
+    def __ne__(self, other):
+        return self.v != other
+
+    def __hash__(self):
+        return hash(self.v)
+
+    def __repr__(self):
+        return "EqualOnly(%d)" % self.v
+
+
+def make_nonint(kind, v):
+    """A non-integer object that compares equal to the int v and hashes like it, or None when there is none
+    of that kind (float/complex: only when v is exactly representable)."""
+    obj = None
+    try:
+        if kind == "float":
+            obj = float(v)
+        elif kind == "negzero":
+            obj = -0.0 if v == 0 else None
+        elif kind == "Fraction":
+            obj = Fraction(v)
+        elif kind == "Decimal":
+            obj = Decimal(v)
+        elif kind == "complex":
+            obj = complex(float(v), 0.0)
+        elif kind == "index":
+            obj = IndexOnly(v)
+        elif kind == "equalonly":
+            obj = EqualOnly(v)
+    except OverflowError:
+        return None
+    if obj is None or isinstance(obj, int):
+        return None
+    if not (obj == v and hash(obj) == hash(v)):
+        return None
+    return obj
+
+
+def tag(v):
+    """JSON-able form of a value of a history step (exact for every type used here)."""
+    if v is None:
+        return ["N"]
+    if isinstance(v, bool):
+        return ["b", int(v)]
+    if isinstance(v, int):
+        return ["i", str(v)]
+    if isinstance(v, float):
+        return ["f", repr(v)]
+    if isinstance(v, Fraction):
+        return ["F", str(v)]
+    if isinstance(v, Decimal):
+        return ["D", str(v)]
+    if isinstance(v, complex):
+        return ["c", repr(v)]
+    if isinstance(v, IndexOnly):
+        return ["idx", str(v.v)]
+    if isinstance(v, EqualOnly):
+        return ["eq", str(v.v)]
+    if isinstance(v, (list, tuple)):
+        return ["L", [tag(e) for e in v]]
+    raise TypeError(type(v))
+
+
+def untag(t):
+    k = t[0]
+    if k == "N":
+        return None
+    if k == "b":
+        return bool(t[1])
+    if k == "i":
+        return int(t[1])
+    if k == "f":
+        return float(t[1])
+    if k == "F":
+        return Fraction(t[1])
+    if k == "D":
+        return Decimal(t[1])
+    if k == "c":
+        return complex(t[1])
+    if k == "idx":
+        return IndexOnly(int(t[1]))
+    if k == "eq":
+        return EqualOnly(int(t[1]))
+    if k == "L":
+        return [untag(e) for e in t[1]]
+    raise ValueError(k)
+
+
+def run_steps(cls, steps, replaying=False):
+    """Execute a history (list of JSON-able steps) on the real class, one current packet object.
+    -> (status, step index, what, got, observed)   status in 'ok' | 'violation' | 'unjudged'"""
+    from bisturi.packet import PacketError
+    pkt = None
+    observed = []
+    for idx, st in enumerate(steps):
+        if st.get("replay_only") and not replaying:
+            continue      # already done on this class by the main part of the run
+        op = st["op"]
+        why = st.get("why", "")
+        if op in ("new", "set"):
+            try:
+                assign = dict((k, untag(v)) for k, v in st["assign"].items())
+                if op == "new" and st.get("via") != "attr":
+                    pkt = cls(**assign)
+                else:
+                    if op == "new":
+                        pkt = cls()
+                    for k, v in assign.items():
+                        setattr(pkt, k, v)
+            except Exception as e:
+                return "unjudged", idx, "could not build the packet: %s" % type(e).__name__, repr(e)[:120], observed
+            continue
+        if op == "unpack":
+            raw = bytes.fromhex(st["raw_hex"])
+            try:
+                pkt = cls.unpack(raw)
+                got = dict((f, getattr(pkt, f)) for f in st["expect"])
+            except Exception as e:
+                return ("violation", idx, "unpack of a complete input raised %s (%s)" % (type(e).__name__, why),
+                        repr(e)[:120], observed)
+            for f, t in st["expect"].items():
+                if got[f] != untag(t):
+                    return ("violation", idx, "decoded value differs from the two's-complement value of the bytes "
+                            "(field %s; %s)" % (f, why), repr(got), observed)
+            continue
+        if op not in ("pack", "reject", "observe"):
+            raise ValueError(op)
+        try:
+            out = pkt.pack()
+        except PacketError as e:
+            if op == "reject":
+                continue
+            if op == "observe":
+                observed.append("%s_rejected" % st["label"])
+                continue
+            return ("violation", idx, "pack of a representable integer raised PacketError (%s)" % why,
+                    "PacketError: %s" % str(e.original_error_message)[:120], observed)
+        except Exception as e:
+            if op == "observe":
+                observed.append("%s_raised_%s" % (st["label"], type(e).__name__))
+                continue
+            if op == "reject":
+                return ("violation", idx, "pack of %s raised %s rather than PacketError" % (why, type(e).__name__),
+                        repr(e)[:120], observed)
+            return ("violation", idx, "pack of a representable integer raised %s (%s)" % (type(e).__name__, why),
+                    repr(e)[:120], observed)
+        if op == "reject":
+            return ("violation", idx, "pack of %s returned bytes instead of raising PacketError" % why,
+                    out.hex(), observed)
+        if op == "observe":
+            observed.append("%s_%s" % (st["label"], "packed_as_the_integer" if out.hex() == st["expect_hex"]
+                                       else "packed_otherwise"))
+            continue
+        if out.hex() != st["expect_hex"]:
+            return ("violation", idx, "packed bytes differ from the two's-complement encoding (%s)" % why,
+                    out.hex(), observed)
+    return "ok", None, None, None, observed
+
+
+def history_pool(n, signed, seed):
+    """(fx, wide): distinct representable integers for the histories.  fx are exactly representable as float
+    (top-three-bytes, below 2^53 and small families), wide are seeded full-width values (for n >= 7 mostly not a float).
+    0, -1 and the all-ones value are kept out (used by the negzero / modular histories)."""
+    lo, hi = bounds(n, signed)
+    rng = rng_for(seed, "c05", "hist", n, int(signed))
+    cand = []
+    for j in range(16):
+        t = (0x5A3C96 + 0x111317 * j) & 0x7fffff
+        if not signed and j % 3 == 0:
+            t |= 0x800000
+        v = t << (8 * (n - 3)) if n >= 3 else t >> (8 * (3 - n))
+        cand.append(-v if (signed and j % 2) else v)
+        w = rng.randrange(2, min(2 ** 53, hi) + 1)
+        cand.append(-w if (signed and j % 2 == 0) else w)
+    cand += [7, 300, -300, 255, 256, -129, 65537, -65537, lo, 2 ** (8 * n - 8)]
+    for j in range(2, 40):
+        cand.append(j)
+        if signed:
+            cand.append(-j)
+    fx = []
+    for v in cand:
+        if lo <= v <= hi and v not in (0, -1, POW[n] - 1) and v not in fx and float(v) == v:
+            fx.append(v)
+    wide = []
+    for _ in range(24):
+        v = rng.randrange(lo, hi + 1)
+        if v not in (0, -1, POW[n] - 1) and v not in fx and v not in wide:
+            wide.append(v)
+    return fx, wide
+
+
+class Taker(object):
+    """hands out distinct values of a pool, starting at a class-dependent position"""
+    def __init__(self, fx, wide, salt):
+        self.fx = fx[(salt * 5) % len(fx):] + fx[:(salt * 5) % len(fx)]
+        self.wide = (wide[(salt * 3) % len(wide):] + wide[:(salt * 3) % len(wide)]) if wide else []
+
+    def take(self, kind, prefer_wide=False):
+        if kind == "negzero":
+            return 0
+        if kind in ("Fraction", "Decimal") and prefer_wide and self.wide:
+            return self.wide.pop(0)
+        return self.fx.pop(0)
+
+
+def _describe(obj):
+    return "%s %r" % (type(obj).__name__, obj)
+
+
+class Hist(object):
+    """builds the steps of one history for one class"""
+    def __init__(self, rec, comp, pos, i):
+        self.rec, self.comp, self.pos, self.i = rec, comp, pos, i
+        self.seq = rec.layout in SEQ_LAYOUTS
+        self.steps = []
+
+    def x(self, v):
+        if self.seq:
+            return [v, self.comp] if self.pos == 0 else [self.comp, v]
+        return v
+
+    def raw(self, v):
+        rec = self.rec
+        if self.seq:
+            return b"".join(encode(e, rec.n, rec.order, rec.signed) for e in self.x(v))
+        return frame_bytes(rec, encode(v, rec.n, rec.order, rec.signed), self.i)
+
+    def full_assign(self, v):
+        d = {"x": self.x(v)} if self.seq else frame_values(self.rec, v, self.i)
+        return dict((k, tag(e)) for k, e in d.items())
+
+    def counts(self, kind, *names):
+        rec = self.rec
+        out = list(names)
+        out.append("hist_%s_path_rejections" % rec.path)
+        out.append("hist_%s_code_rejections" % ("generic" if rec.opt == "gen" else "generated"))
+        out.append("hist_signed_rejections" if rec.signed else "hist_unsigned_rejections")
+        out.append("hist_%s_rejections" % rec.order)
+        if self.seq:
+            out.append("hist_seq_element_rejections")
+        if kind in KIND_COUNTER:
+            out.append(KIND_COUNTER[kind])
+        return out
+
+    # -- steps
+    def new(self, v, via="ctor", **extra):
+        self.steps.append(dict({"op": "new", "via": via, "assign": self.full_assign(v)}, **extra))
+
+    def set_x(self, v):
+        self.steps.append({"op": "set", "assign": {"x": tag(self.x(v))}})
+
+    def pack(self, v, why, *counts, **extra):
+        self.steps.append(dict({"op": "pack", "expect_hex": self.raw(v).hex(), "why": why, "count": list(counts)}, **extra))
+
+    def reject(self, why, counts):
+        self.steps.append({"op": "reject", "why": why, "count": counts})
+
+    def unpack(self, v, why):
+        self.steps.append({"op": "unpack", "raw_hex": self.raw(v).hex(), "expect": self.full_assign(v), "why": why})
+
+    def observe(self, v, label):
+        self.steps.append({"op": "observe", "label": label, "expect_hex": self.raw(v).hex()})
+
+
+def build_history(rec, scen, kind, v, comp, pos, i, lean, variant=0):
+    """steps of one scenario, or None when no equal non-integer of that kind exists for v."""
+    h = Hist(rec, comp, pos, i)
+    M = POW[rec.n]
+    where = " as element %d of the list" % pos if h.seq else ""
+    if scen == "modular":
+        h.new(v)
+        h.pack(v, "integer %d" % v)
+        cands = [v + M, v - M]
+        if lean:
+            cands = [cands[variant % 2]]
+        for c in cands:
+            h.new(c)
+            h.reject("the out-of-range integer %d%s (equal to %d modulo 2^%d, which was packed before through the same "
+                     "field)" % (c, where, v, 8 * rec.n), h.counts(None, "hist_modular_rejections"))
+        if not lean:
+            a, b = (-1, M - 1) if rec.signed else (M - 1, -1)
+            h.new(a)
+            h.pack(a, "integer %d (all bytes ff)" % a)
+            h.new(b)
+            h.reject("the out-of-range integer %d%s (it would also be all bytes ff, like %d packed before through the "
+                     "same field)" % (b, where, a), h.counts(None, "hist_modular_rejections"))
+        return h.steps
+    obj = make_nonint(kind, v)
+    if obj is None:
+        return None
+    d = _describe(obj) + where
+    if scen == "equal":
+        h.new(v)
+        h.pack(v, "integer %d" % v)
+        h.new(obj)
+        h.reject("the non-integer %s (it compares equal to the integer %d packed just before through the same field)"
+                 % (d, v), h.counts(kind, "hist_equal_nonint_rejections"))
+    elif scen == "same":
+        h.new(v, via="attr")
+        h.pack(v, "integer %d" % v)
+        h.set_x(obj)
+        h.reject("the non-integer %s assigned to the packet object that packed the equal integer %d just before"
+                 % (d, v), h.counts(kind, "hist_equal_nonint_rejections", "hist_same_packet_rejections"))
+        h.set_x(v)
+        h.pack(v, "integer %d on the same packet object, after the rejection of an equal non-integer" % v,
+               "hist_int_repacked_after_rejection")
+    elif scen == "reverse":
+        h.new(obj)
+        h.reject("the non-integer %s (nothing equal to it was packed before)" % d,
+                 h.counts(kind, "hist_nonint_first_rejections"))
+        h.new(v)
+        h.pack(v, "integer %d after the rejection of the equal non-integer %s" % (v, d), "hist_int_after_nonint_packed")
+        if not lean:
+            h.new(obj)
+            h.reject("the non-integer %s (rejected before, then the equal integer %d was packed)" % (d, v),
+                     h.counts(kind, "hist_equal_nonint_rejections"))
+    elif scen == "overwrite":
+        h.unpack(v, "history: parse, overwrite with an equal non-integer, pack")
+        h.pack(v, "re-pack of the parsed packet")
+        h.set_x(obj)
+        h.reject("the non-integer %s written over the parsed field (parsed value: the equal integer %d)" % (d, v),
+                 h.counts(kind, "hist_equal_nonint_rejections", "hist_unpack_overwrite_rejections"))
+        h.set_x(v)
+        h.pack(v, "integer %d on the parsed packet, after the rejection of an equal non-integer" % v,
+               "hist_int_repacked_after_rejection")
+    elif scen == "stale":
+        # v (and comp) are boundary values the main part packed on this class long before: only a replay repeats that
+        h.new(v, replay_only=True)
+        h.pack(v, "integer %d" % v, replay_only=True)
+        h.new(obj)
+        h.reject("the non-integer %s (it compares equal to the integer %d packed earlier in the run through the same "
+                 "field)" % (d, v), h.counts(kind, "hist_equal_nonint_rejections", "hist_stale_rejections"))
+    elif scen == "observe":
+        h.new(v)
+        h.pack(v, "integer %d" % v)
+        h.new(obj)
+        h.observe(v, "hist_observed_%s_object" % kind)
+    else:
+        raise ValueError(scen)
+    return h.steps
+
+
+def run_history(ctx, rec, scen, kind, steps, phase):
+    """Execute one history on rec.cls and record the outcome.  False = stop working on this class."""
+    run = ctx.run
+    status, idx, what, got, observed = run_steps(rec.cls, steps)
+    executed = [st for st in steps if not st.get("replay_only")]
+    run.case(key="%s|history:%s:%s:%s" % (rec.name, phase, scen, kind),
+             n=sum(1 for st in executed if st["op"] in ("pack", "reject", "unpack", "observe")))
+    for label in observed:
+        run.count(label)
+    if status == "ok":
+        run.count("hist_sequences")
+        for st in executed:
+            for c in st.get("count", ()):
+                run.count(c)
+        run.cover("hist_scenario_x_kind", "%s/%s" % (scen, kind))
+        run.cover("hist_scenario_x_layout_x_options", "%s/%s/%s" % (scen, rec.layout, rec.opt))
+        run.cover("hist_kind_x_path_x_signed", "%s/%s/%s" % (kind, rec.path, "s" if rec.signed else "u"))
+        run.cover("hist_widths", rec.n)
+        return True
+    if status == "unjudged":
+        run.count("unjudged:history:" + what[:50])
+        return True
+    witness = {"class_name": rec.name, "class_src": HEADER + rec.src, "config": rec.config(),
+               "history": {"scenario": scen, "kind": kind, "phase": phase, "steps": steps, "failed_step": idx}, "got": got}
+    run.violation("%s [history %s, step %d; Int(%d, signed=%s, endianness=%r), class default %r, layout %s, options %s]" % (
+        what, scen, idx, rec.n, rec.signed, rec.spelling, rec.cd, rec.layout, rec.opt), witness, None)
+    rec.bad = True
+    if run.counters["violations"] >= MAX_VIOLATIONS:
+        ctx.stop = True
+    return False
+
+
+def history_pre(ctx, rec, pool, full, salt):
+    """Histories on the still unused class (so that a recorded sequence replays exactly)."""
+    run = ctx.run
+    fx, wide = pool
+    tk = Taker(fx, wide, salt)
+    comp = tk.take("float")
+    run.count("hist_full_classes" if full else "hist_lean_classes")
+    if full:
+        plan = [("equal", k) for k in HIST_KINDS]
+        plan += [(s, HIST_KINDS[(salt + j) % 4]) for j, s in enumerate(("same", "reverse", "overwrite"))]
+        plan += [("modular", None), ("observe", "index"), ("observe", "equalonly")]
+    else:
+        idx = salt % 30
+        scen = HIST_SCENARIOS[idx % 6]
+        if scen == "stale":
+            return           # runs in history_late
+        plan = [(scen, HIST_KINDS[idx // 6] if scen != "modular" else None)]
+    for j, (scen, kind) in enumerate(plan):
+        if ctx.stop or rec.bad:
+            return
+        v = tk.take(kind, prefer_wide=(salt + j) % 2 == 0)
+        steps = build_history(rec, scen, kind, v, comp, (salt + j) % 2, j, lean=not full, variant=salt // 30)
+        if steps is None:
+            run.count("hist_no_equal_nonint_of_kind")
+            continue
+        if not run_history(ctx, rec, scen, kind, steps, "pre"):
+            return
+
+
+def history_late(ctx, rec, pool, full, salt, bexp):
+    """Histories after the main part used the class: a non-integer equal to a boundary value packed long before (stale),
+    and on the full classes one more packed-just-before history on the by now heavily used field."""
+    run = ctx.run
+    fx, wide = pool
+    idx = salt % 30
+    if full:
+        plan = [("stale", HIST_KINDS[salt % 5]), ("stale", HIST_KINDS[(salt + 2) % 5]), ("equal", HIST_KINDS[(salt + 1) % 4])]
+    elif HIST_SCENARIOS[idx % 6] == "stale":
+        plan = [("stale", HIST_KINDS[idx // 6])]
+    else:
+        return
+    tk = Taker(fx[::-1], wide[::-1], salt)
+    for j, (scen, kind) in enumerate(plan):
+        if ctx.stop or rec.bad:
+            return
+        pos = (salt + j) % 2
+        if scen == "stale":
+            # boundary values of this class for which an equal non-integer of the kind exists
+            cands = [e for e in bexp if make_nonint(kind, e) is not None]
+            if not cands:
+                run.count("hist_no_equal_nonint_of_kind")
+                continue
+            v = cands[(salt + 3 * j) % len(cands)]
+            comp = bexp[(salt + j) % len(bexp)]
+        else:
+            v, comp = tk.take(kind, prefer_wide=True), tk.take("float")
+        steps = build_history(rec, scen, kind, v, comp, pos, j, lean=not full)
+        if steps is None:
+            run.count("hist_no_equal_nonint_of_kind")
+            continue
+        if not run_history(ctx, rec, scen, kind, steps, "late"):
+            return
+
+
 _FMT_RE = re.compile(r'StructUnpack\("([<>=@!]?[A-Za-z]+)"')
 
 
@@ -732,6 +1228,7 @@ def observe_class(run, rec, scratch):
         if name == "x":
             if rec.layout == "ref":
                 run.count("ref_layout_classes")      # the Int is created and compiled at every unpack/pack
+                rec.path = "struct" if rec.n in (1, 2, 4, 8) else "loop"
                 continue
             target = field.prototype_field if rec.layout in ("rep", "unt", "opt") else field
             fname = getattr(target.unpack, "__name__", "?")
@@ -739,8 +1236,10 @@ def observe_class(run, rec, scratch):
             run.cover("int_pack_method", getattr(target.pack, "__name__", "?"))
             if "primitive" in fname:
                 run.count("struct_path_classes")
+                rec.path = "struct"
             else:
                 run.count("loop_path_classes")
+                rec.path = "loop"
     generated = "unpack_impl" in cls.__dict__ and "pack_impl" in cls.__dict__
     if generated:
         run.count("generated_code_classes")
@@ -873,10 +1372,14 @@ def run(run):
                 run.cover("byte_order_configs", "%r/%r" % (sp, cd))
 
             nfan = fanout(tier, n)
+            hpools = {}
             for ci, (signed, sp, cd), recs in recs_by_cfg:
                 if ctx.stop:
                     break
                 order = recs[0].order
+                if signed not in hpools:
+                    hpools[signed] = history_pool(n, signed, run.seed)
+                hpool = hpools[signed]
                 # boundaries + per-class cases on every class
                 bexp = expected("boundary", bpats, order, signed)
                 for ri, r in enumerate(recs):
@@ -889,8 +1392,11 @@ def run(run):
                     if ctx.stop:
                         break
                     run.cover("layout_x_options", "%s/%s" % (r.layout, r.opt))
-                    check_group(ctx, r, "boundary", bpats, bexp)
-                    if not r.bad:
+                    r.full, r.salt = full, ci * 7 + ri + n
+                    history_pre(ctx, r, hpool, r.full, r.salt)      # first: the class has not packed anything yet
+                    if not r.bad and not ctx.stop:
+                        check_group(ctx, r, "boundary", bpats, bexp)
+                    if not r.bad and not ctx.stop:
                         per_class_cases(ctx, r, rnd_x, full, ci * 7 + ri + n)
                 for gi, (gkey, pats) in enumerate(groups):
                     if ctx.stop:
@@ -906,6 +1412,9 @@ def run(run):
                             uop, pop = ops_for(r, pats, exps, 7 % len(pats))
                             run.sample({"class_src": r.src, "unpack": op_to_witness(uop), "pack": op_to_witness(pop)})
                             sampled += 1
+                for r in recs:
+                    if not r.bad and not ctx.stop:
+                        history_late(ctx, r, hpool, r.full, r.salt, bexp)
             for mn in modnames:
                 sys.modules.pop(mn, None)
     finally:
